@@ -50,6 +50,9 @@ GRAMMARS = {
     'nullable-closure-pattern': "start: {/a?/} {[@int]}+ '.' ;\n",
     'nullable-join': "start: '.'%{['+']} 'e' | '.'.{/a?/}+ '1' ;\n",
     'nullable-rule-closure': "start: {n}+ '.' | {$->} 'e' ;\n\nn: ['a'] ['+'] ;\n",
+    # rounds that can succeed without taking input although they pass a cut (the join's own after the separator, or a written one)
+    'nullable-join-nullable-separator': "start: (['+'])%{['a']} '.' | ('-' | ()).{[@int]}+ 'e' ;\n",
+    'nullable-closure-with-cut': "start: {~ ['a']} '.' | {'+' ~ | ()}+ 'e' ;\n",
     # @name rules whose value is not a string: a list (dotted name), a dict (named element), a number, nothing at all
     'keyword-compound-name': "@@keyword :: a e\n\nstart: {n}+ $ ;\n\n@name\nn: /[ae_]+/ {'.' /[ae_]+/} | '+' k:/[ae]/ | @int | '-' () ;\n",
     'keyword-compound-name-ic': "@@ignorecase :: True\n@@keyword :: a E\n\nstart: {n}+ $ ;\n\n@name\nn: /[ae_]+/ {'.' /[ae_]+/} | '+' k:/[ae]/ | @int | '-' () ;\n",
